@@ -18,8 +18,9 @@ Oracles (implementation only, the property text):
   same value) in the follow-up request (after a 303 the content-specific names are exempt);
 * single-host — a bare pool that asserts the host answers a redirect to another origin with
   `HostChangedError` and sends nothing after it;
-* same-origin — `is_same_host(url)` is true iff `url` starts with `/` or scheme, lower-cased host
-  and effective port agree with the pool's.
+* same-origin — `is_same_host(url)` is true iff `url` is a bare path (starts with `/` but not with
+  `//`) or scheme, lower-cased host and effective port agree with the pool's (a scheme-relative
+  `//host/path` names a host and is compared like an absolute URL).
 """
 from __future__ import annotations
 
@@ -131,11 +132,14 @@ def classify(case, reqs, outcome, kind):
     c_nomgr = dict(case)
     c_nomgr.pop("mret", None)
     kinds = lambda c, code: [k for k, _ in c06_problems(c, reqs, outcome, code)]
+    # a leak that the proxy judgement alone explains (the supplied policy applied, forwarded hops judged
+    # against the proxy's origin) is the proxy finding, wherever the policy was placed; only what it
+    # does not explain is attributed to the placement
+    if case["client"] == "px" and kind == "leak" and kind not in kinds(case, True):
+        return "leak:proxymanager-forwarding-same-host-judged-against-proxy"
     if place == "manager" and kind not in kinds(c_nomgr, False):
         return f"{kind}:manager-constructor-policy-ignored"
     if case["client"] == "px" and kind == "leak":
-        if kind not in kinds(case, True):
-            return "leak:proxymanager-forwarding-same-host-judged-against-proxy"
         if place == "manager" and kind not in kinds(c_nomgr, True):
             return "leak:manager-constructor-policy-ignored+proxymanager-forwarding-same-host-judged-against-proxy"
     if case["client"] == "pm" and kind == "leak" and any(u.startswith("/") for u in code_seen_urls(case, reqs)[1:]):
@@ -209,10 +213,10 @@ def samehost_probe(probe, case, res):
     entry = M.parse_entry(url)[0]
     line = f"samehost {enc(sc)},{enc(host)},{'~' if port is None else port} {enc(url)} {entry}"
     # the property's reading, from the stdlib parse
-    if url.startswith("/"):
+    if url.startswith("/") and not url.startswith("//"):
         want = True
     else:
-        s = urlsplit(url if "://" in url else "//" + url)
+        s = urlsplit(url if "://" in url or url.startswith("//") else "//" + url)
         usc = (s.scheme or "http").lower()
         want = (usc, (s.hostname or "").lower(), s.port or DEFAULT_PORT.get(usc)) == \
                (sc, host.lower(), port or DEFAULT_PORT[sc])
